@@ -105,6 +105,13 @@ func genAdversarialRecs(r *vk.RNG, n int) []Rec {
 			sets[1] = map[string]string{"job": "j", "a": "x", "b": "\x00y"}
 		}
 	}
+	if r.Chance(1, 5) {
+		// values that differ only in bytes that are not valid UTF-8 (Latin-1 text, binary ids), next to the
+		// replacement character and its escaped spelling which lossy text encodings map them to
+		pair := vk.Pick(r, [][2]string{{"M\xfcller", "M\xf6ller"}, {"\xff", "\xfe"}, {"\xff", "\ufffd"}, {"x\x80y", "x\x81y"}, {"\xc3", "\xc3\x28"}, {"\xfe", `\ufffd`}, {"a\xe9", "a\xe8"}})
+		sets[0] = map[string]string{"job": "j", "a": pair[0], "b": "y"}
+		sets[1] = map[string]string{"job": "j", "a": pair[1], "b": "y"}
+	}
 	if nsets >= 4 && r.Bool() {
 		// a permutation family: the same three values spread over the same three names
 		vals := []string{"x", "y", "z"}
